@@ -221,6 +221,7 @@ func (tracer *ContextTracer) Infof(format string, things ...interface{}) {
 
 // Warning is used to log (potentially) bad events, but nothing broke (even a little) and there is no need to panic yet.
 func (tracer *ContextTracer) Warning(msg string) {
+	atomic.AddUint64(warnLogLines, 1)
 	switch {
 	case tracer != nil:
 		tracer.log(WarningLevel, msg)
@@ -231,6 +232,7 @@ func (tracer *ContextTracer) Warning(msg string) {
 
 // Warningf is used to log (potentially) bad events, but nothing broke (even a little) and there is no need to panic yet.
 func (tracer *ContextTracer) Warningf(format string, things ...interface{}) {
+	atomic.AddUint64(warnLogLines, 1)
 	switch {
 	case tracer != nil:
 		tracer.log(WarningLevel, fmt.Sprintf(format, things...))
@@ -241,6 +243,7 @@ func (tracer *ContextTracer) Warningf(format string, things ...interface{}) {
 
 // Error is used to log errors that break or impair functionality. The task/process may have to be aborted and tried again later. The system is still operational. Maybe User/Admin should be informed.
 func (tracer *ContextTracer) Error(msg string) {
+	atomic.AddUint64(errLogLines, 1)
 	switch {
 	case tracer != nil:
 		tracer.log(ErrorLevel, msg)
@@ -251,6 +254,7 @@ func (tracer *ContextTracer) Error(msg string) {
 
 // Errorf is used to log errors that break or impair functionality. The task/process may have to be aborted and tried again later. The system is still operational.
 func (tracer *ContextTracer) Errorf(format string, things ...interface{}) {
+	atomic.AddUint64(errLogLines, 1)
 	switch {
 	case tracer != nil:
 		tracer.log(ErrorLevel, fmt.Sprintf(format, things...))
@@ -261,6 +265,7 @@ func (tracer *ContextTracer) Errorf(format string, things ...interface{}) {
 
 // Critical is used to log events that completely break the system. Operation connot continue. User/Admin must be informed.
 func (tracer *ContextTracer) Critical(msg string) {
+	atomic.AddUint64(critLogLines, 1)
 	switch {
 	case tracer != nil:
 		tracer.log(CriticalLevel, msg)
@@ -271,6 +276,7 @@ func (tracer *ContextTracer) Critical(msg string) {
 
 // Criticalf is used to log events that completely break the system. Operation connot continue. User/Admin must be informed.
 func (tracer *ContextTracer) Criticalf(format string, things ...interface{}) {
+	atomic.AddUint64(critLogLines, 1)
 	switch {
 	case tracer != nil:
 		tracer.log(CriticalLevel, fmt.Sprintf(format, things...))
